@@ -39,7 +39,7 @@ TRIGGERS = ['a_raises', 'b_returns', 'stop_flag', 'external_cancel', 'none']
 
 
 def run_operator(trigger, at, su_dur, su_fails, cu_dur, a_linger, daemon_delay, with_daemon, hung_for, su2_retries=False):
-    w = World(base_body())
+    w = World(base_body(), tmode='symbolic')
     loop = w.loop
     log = []
     registry = w.registry
@@ -178,7 +178,10 @@ def run_operator(trigger, at, su_dur, su_fails, cu_dur, a_linger, daemon_delay, 
         log.append(('run_tasks_end', loop.time(), outcome))
         await cancel_all_others()
         return outcome
-    outcome = w.run(main(), max_steps=20000)
+    from vkopf import shimdt
+    from kopf._core.actions import progression
+    with shimdt.installed(progression):      # activities/daemons keep their state in memory: timestamps stay symbolic
+        outcome = w.run(main(), max_steps=20000)
     return log, outcome
 
 
@@ -190,6 +193,11 @@ def h_lifecycle(trigger: int, at: int, su_dur: int, su_fails: bool, cu_dur: int,
     """
     vkopf.begin_path()
     trigger, su_fails = vkopf.pin('trigger', trigger), vkopf.pin('su_fails', su_fails)
+    with_daemon, hung, su2_retries = vkopf.pin('with_daemon', with_daemon), vkopf.pin('hung', hung), vkopf.pin('su2_retries', su2_retries)
+    if vkopf.cell('coarse', False):
+        # quick cells: the instants that matter (trigger vs. startup) stay unbounded symbolic; the grace-period
+        # durations are chosen from small sets (every extra unbounded duration multiplies the timer orderings)
+        cu_dur, a_linger, daemon_delay = 1, vkopf.choose(a_linger, [0, 2]), vkopf.choose(daemon_delay, [0, 1])
     name = TRIGGERS[trigger]
     if name == 'none' and not su_fails:
         return True                      # nothing ever stops this operator: not a scenario
@@ -259,6 +267,18 @@ def h_lifecycle(trigger: int, at: int, su_dur: int, su_fails: bool, cu_dur: int,
 
 
 def obligations():
-    obs = split(Ob('h_lifecycle', {}, timeout=2400, path_timeout=300, twins=['startup_failed', 'fail_fast', 'cleanup', 'daemon']),
-                trigger=[0, 1, 2, 3, 4], su_fails=[False, True])
+    B = [False, True]
+    obs = []
+    sample = [  # (trigger, su_fails, with_daemon, hung, su2_retries)
+        (0, False, True, False, False), (1, False, False, True, False), (2, False, True, False, True), (3, False, True, False, False),
+        (4, True, False, False, True), (0, True, False, False, False), (2, True, False, False, True), (3, True, True, False, True)]
+    for (tr, sf, wd, hg, s2) in sample:
+        obs.append(Ob('h_lifecycle', {'coarse': True, 'pin': {'trigger': tr, 'su_fails': sf, 'with_daemon': wd, 'hung': hg, 'su2_retries': s2}},
+                      tiers=('quick',), timeout=900, path_timeout=300))
+    obs.append(Ob('h_lifecycle', {'coarse': True}, tiers=('quick', 'thorough'), timeout=600, path_timeout=300,
+                  twins=['startup_failed', 'fail_fast', 'cleanup', 'daemon'], main=False))
+    obs += split(Ob('h_lifecycle', {'coarse': True}, tiers=('thorough',), timeout=1800, path_timeout=300),
+                 trigger=[0, 1, 2, 3, 4], su_fails=B, with_daemon=B, hung=B, su2_retries=B)
+    obs += split(Ob('h_lifecycle', {}, tiers=('thorough',), timeout=3400, path_timeout=300), trigger=[0, 1, 2, 3], su_fails=[False],
+                 with_daemon=[True], hung=[False], su2_retries=[False])
     return obs
